@@ -540,6 +540,16 @@ impl<'a> Sim<'a> {
             );
             let same_log = o.trades.len() == self.led.trades.len()
                 && o.trades.iter().zip(self.led.trades.iter()).all(|(a, b)| a.symbol == b.symbol && a.date == b.date && a.typ == b.typ && a.value == b.value && a.quantity == b.quantity);
+            // a windowed read over the dataset's whole date range must return the same log (every execution is
+            // dated by one of the dataset's dates)
+            {
+                let (lo, hi) = (self.ds.dates.iter().copied().min().unwrap_or(0), self.ds.dates.iter().copied().max().unwrap_or(0));
+                let windowed = self.brkr.trades_between(&lo, &hi).len();
+                rule!(
+                    self.ctx, "C05", "trade-log-window", what, windowed == o.trades.len(),
+                    "after {what}: trades_between({lo}, {hi}) - the dataset's first and last date - returns {windowed} trades, the whole log has {}", o.trades.len()
+                );
+            }
             rule!(
                 self.ctx, "C05", "trade-log", what, same_log,
                 "after {what}: broker log has {} trades, the exchange executed {} for it (or they differ in order/content)", o.trades.len(), self.led.trades.len()
